@@ -20,6 +20,7 @@ import OFV.Proofs.C11Diag
 import OFV.Proofs.C11RowUnit
 import OFV.Proofs.C11Exact
 import OFV.Proofs.C11Prod
+import OFV.Proofs.C11ProdLeft
 
 namespace OFV.C11
 open OFV OFV.Model.C11
@@ -622,6 +623,52 @@ theorem square_reconstruct_product (tol : Rat) (htol : 0 < tol) (ai : Bool) (n :
   rw [← happ] at hmul
   refine ⟨?_, hn i hi⟩
   rw [← hmul]
+  by_cases e : i = x
+  · subst e; simp
+  · simp only [e, if_false]; exact hz i x hi hx e
+
+open Finset in
+/-- **`V Q U† = (D | 0)` as a matrix product** (`givens_decomposition`, `m < n`, exact regime).  `V` is the matrix the
+function returns as `left_unitary` (the Model applies every row rotation to it, starting from the identity), `Ud = U†` is
+obtained by applying the RECORDED column rotations (rebuilt from their `(θ, φ)`) to the identity.  For every `m × n`
+isometry `Q`:  `Σ_y (Σ_w V[i,w] Q[w,y]) · Ud[y,x] = d_i δ_ix`, `|d_i| = 1`, `d` the returned diagonal. -/
+theorem givens_reconstruct_product (tol : Rat) (htol : 0 < tol) (ai : Bool) (m n : Nat) (hm : m < n)
+    (Q M V : Mat) (ls : List (List Rot)) (M' : Mat) (hQ : Rect Q m n) (horth : RowsOrthonormal Q m n)
+    (h1 : leftStage tol (givensLeft m n) Q (Mat.identity m) = .ok (M, V)) (hex1 : LeftExact tol (givensLeft m n) Q)
+    (h2 : colSweep tol (givensLayer m n) ai (List.range (givensDepth n)) M = .ok (ls, M'))
+    (hex2 : SweepExact tol ai (givensLayer m n) (List.range (givensDepth n)) M) :
+    ∀ i x, i < m → x < n →
+      (∑ y ∈ range n, (∑ w ∈ range m, V.get i w * Q.get w y) *
+          (applyCols (ls.flatten.map Rot.toOp) (Mat.identity n)).get y x) = (if i = x then M'.get i i else 0) ∧
+      ((M'.get i i).re * (M'.get i i).re + (M'.get i i).im * (M'.get i i).im = 1) := by
+  intro i x hi hx
+  obtain ⟨hz, hn⟩ := givens_decomposition_diagonalises tol htol ai m n hm Q (Mat.identity m) M V ls M' hQ horth h1 hex1 h2 hex2
+  have hleftval : ∀ p ∈ givensLeft m n, p.1 + 1 < m := by
+    intro p hp
+    obtain ⟨l, k⟩ := p
+    have := (mem_givensLeft m n l k (by omega)).1 hp
+    simp only; omega
+  obtain ⟨hprod, _⟩ := leftStage_prod tol m n Q _ Q (Mat.identity m) M V h1 hQ (identity_rect m) hleftval (identity_prod Q m n)
+  obtain ⟨hRM, _⟩ := leftStage_zeroes_corner tol htol m n (by omega) Q (Mat.identity m) M V h1 hex1 hQ
+  have happ := colSweep_applied tol htol ai (givensLayer m n) _ M ls M' h2 hex2
+  obtain ⟨_, hall⟩ := colSweep_layers tol (givensLayer m n) ai _ M ls M' h2
+  have hval : ∀ op ∈ ls.flatten.map Rot.toOp, op.2.1 < n ∧ op.2.2 < n ∧ op.2.1 ≠ op.2.2 := by
+    intro op hop
+    obtain ⟨r, hr, rfl⟩ := List.mem_map.mp hop
+    obtain ⟨l, hl, hrl⟩ := List.mem_flatten.mp hr
+    obtain ⟨_, k, hk, hs⟩ := hall l hl
+    obtain ⟨hmem, _⟩ := sublayer_structure (givensLayer_pairwise m n k) hs
+    obtain ⟨⟨i0, j0⟩, hp, h1', h2'⟩ := hmem r hrl
+    rw [mem_givensLayer m n k i0 j0 hm (by simpa [givensDepth] using List.mem_range.mp hk)] at hp
+    show (Rot.toOp r).2.1 < n ∧ (Rot.toOp r).2.2 < n ∧ (Rot.toOp r).2.1 ≠ (Rot.toOp r).2.2
+    simp only [Rot.toOp]
+    have e1 : r.i = j0 - 1 := h1'
+    have e2 : r.j = j0 := h2'
+    omega
+  have hmul := applyCols_mul (ls.flatten.map Rot.toOp) m M hRM hval i x hi hx
+  rw [← happ] at hmul
+  refine ⟨?_, hn i hi⟩
+  rw [sum_congr rfl (fun y hy => by rw [← hprod i y hi (mem_range.mp hy)]), ← hmul]
   by_cases e : i = x
   · subst e; simp
   · simp only [e, if_false]; exact hz i x hi hx e
